@@ -57,6 +57,8 @@ klen = z3.Function("klen", Obj, I)
 kat = z3.Function("kat", Obj, I, Obj)
 kidx = z3.Function("kidx", Obj, Obj, I)
 ref_eq = z3.Function("ref_eq", Obj, Obj, B)       # Python == between two heap objects
+custom_eq = z3.Function("custom_eq", Obj, B)      # a heap object whose class may define its own __eq__ (schemas, user classes, Decimal, ...)
+mixed_eq = z3.Function("mixed_eq", Obj, Obj, B)   # == between such an object and a scalar: whatever that __eq__ answers
 repr_s = z3.Function("repr_s", Obj, S)            # repr(x) / str(x) text (uninterpreted)
 str_s = z3.Function("str_s", Obj, S)
 pow10 = z3.Function("pow10", I, I)
@@ -83,6 +85,7 @@ setidx = z3.Function("setidx", I, Obj, Obj, I)    # position of a member in the 
 all_in = z3.Function("all_in", S, S, B)           # every character of the 1st string occurs in the 2nd
 all_in_wit = z3.Function("all_in_wit", S, S, I)
 joined = z3.Function("joined", S, Obj, S)         # sep.join(list of str)
+srep = z3.Function("srep", S, I, S)               # s * n (n copies of s; '' for n <= 0)
 join_wit = z3.Function("join_wit", S, Obj, S, I)
 # chin(s, c): c is a single character occurring in s  (== len(c) == 1 and c in s).  Proofs about character sets go
 # through this symbol and E-matching hints; z3's sequence solver spins on negative Contains literals otherwise.
@@ -127,6 +130,8 @@ BUILTIN_CLASSES: Dict[str, List[str]] = {
     "ZeroDivisionError": ["ArithmeticError"], "ArithmeticError": ["Exception"],
     "re.error": ["Exception"], "RecursionError": ["RuntimeError"],
     "StopIteration": ["Exception"],
+    # a dict subclass whose subscript read has a side effect (__missing__ inserts the key): stands for every such class
+    "defaultdict": ["dict"],
 }
 
 
@@ -265,9 +270,10 @@ def py_eq(a, b):
     return z3.If(z3.And(is_num(a), is_num(b)), num_eq(a, b),
            z3.If(z3.And(is_StrV(a), is_StrV(b)), sval(a) == sval(b),
            z3.If(z3.And(is_BytesV(a), is_BytesV(b)), bsval(a) == bsval(b),
+           z3.If(z3.Or(custom_eq(a), custom_eq(b)), mixed_eq(a, b),
            z3.If(z3.And(is_Ref(a), is_Ref(b)), ref_eq(a, b),
            z3.If(z3.Or(is_num(a), is_num(b), is_StrV(a), is_StrV(b), is_BytesV(a), is_BytesV(b),
-                       is_Ref(a), is_Ref(b)), False, a == b)))))
+                       is_Ref(a), is_Ref(b)), False, a == b))))))
 
 
 DBL_MAX = z3.RealVal("179769313486231570814527423731704356798070567525844996598917476803157260780028538760589558632766878171540458953514382464234321326889464182768467546703537516986049910576551282076245490090389328944075868508455133942304583236903222948165808559332123348274797826204144723168738177180919299881250404026184124858368")
@@ -430,6 +436,14 @@ def base_axioms() -> List[z3.BoolRef]:
                                                z3.And(0 <= setidx(hs, o, k), setidx(hs, o, k) < klen(o),
                                                       setord(hs, o, setidx(hs, o, k)) == k)),
                         patterns=[setidx(hs, o, k)]))
+    # only objects of these built-in classes are known to be unequal to every scalar (None, ..., numbers, strings);
+    # a schema (Schema.__eq__ = eq validates the other operand), a user object, a Decimal or a bytearray may answer
+    # anything (mixed_eq is uninterpreted)
+    plain = [list(BUILTIN_CLASSES).index(n) for n in BUILTIN_CLASSES
+             if n in ("list", "tuple", "dict", "set", "frozenset", "date", "datetime", "timedelta", "UUID", "function")
+             or n.endswith("Error") or n.endswith("Exception") or n in ("StopIteration",)]
+    ax.append(z3.ForAll([o], custom_eq(o) == z3.And(is_Ref(o), z3.Not(z3.Or(*[rcls(o) == k_ for k_ in plain]))),
+                        patterns=[custom_eq(o)]))
     # == between heap objects of standard data (UUID, datetime, lists of such, ...) is an equivalence
     o2 = z3.Const("o2", Obj)
     ax.append(z3.ForAll([o], ref_eq(o, o), patterns=[ref_eq(o, o)]))
